@@ -26,9 +26,12 @@ C08Spec == C08Init /\ [][C08Next]_vars
 \* update (UpdateFaulted / UpdateAllFaulted).  A failed call is no input of any mineral (Touches), so
 \* NonInterference and Twins say that every mineral still evolves as if the failed calls had never been made -
 \* whatever the lengths of the other minerals' histories at that moment.
+\* (one parameter record and three fault points for the failing calls: tlc -simulate draws successors uniformly, and
+\*  the failing calls would otherwise crowd out the updates that make the histories differ in length)
+OnePar == CHOOSE p \in Pars : TRUE
 C08FaultNext == \/ C08Next
-                \/ \E m \in Minerals, fl \in Flows, par \in Pars, fc \in FaultCodes : UpdateFaulted(m, fl, par, fc)
-                \/ \E ms \in OrderedSubsets, fl \in Flows, par \in Pars, fc \in FaultCodes : UpdateAllFaulted(ms, fl, par, fc)
+                \/ \E m \in Minerals, fc \in {"first", "vgrad_mid", "regime_mid"} : UpdateFaulted(m, "ss_xz", OnePar, fc)
+                \/ \E ms \in OrderedSubsets, fc \in {"first", "vgrad_late", "pos_mid"} : UpdateAllFaulted(ms, "gen3d", OnePar, fc)
 C08FaultSpec == C08Init /\ [][C08FaultNext]_vars
 \* ... and with duplicated minerals: handle "d" starts empty and becomes a deep copy / an unpickled copy of a live
 \* mineral at some point of the interleaving; from then on it is one more mineral of the aggregate.  The solo
